@@ -4,6 +4,16 @@ import (
 	"verifharness/internal/core"
 )
 
+func flagOf(tr core.Case, f string) bool {
+	fl, _ := tr["flags"].([]any)
+	for _, x := range fl {
+		if x == f {
+			return true
+		}
+	}
+	return false
+}
+
 func firstEvent(tr core.Case, op string) map[string]any {
 	for _, e := range evs(tr) {
 		if s(e, "op") == op {
@@ -353,7 +363,7 @@ var Corruptions = map[string][]core.Corruption{
 		}},
 		{Name: "count-plus-one", Apply: func(tr core.Case) bool {
 			e := firstEvent(tr, "run")
-			if e == nil || s(tr, "mode") != "count" || s(tr, "kind") == "bad" {
+			if e == nil || n(e, "count") < 0 || s(tr, "kind") == "bad" || s(tr, "kind") == "wcnf" || s(tr, "kind") == "bf" || !flagOf(tr, "-count") || flagOf(tr, "-mus") {
 				return false
 			}
 			e["count"] = n(e, "count") + 1
@@ -361,7 +371,7 @@ var Corruptions = map[string][]core.Corruption{
 		}},
 		{Name: "flip-answer-line", Apply: func(tr core.Case) bool {
 			e := firstEvent(tr, "run")
-			if e == nil || s(tr, "kind") != "cnf" || s(tr, "mode") != "solve" || s(e, "s") != "SATISFIABLE" {
+			if e == nil || s(tr, "kind") != "cnf" || flagOf(tr, "-count") || flagOf(tr, "-mus") || s(e, "s") != "SATISFIABLE" {
 				return false
 			}
 			e["s"], e["hasV"], e["v"] = "UNSATISFIABLE", false, []int{}
